@@ -67,6 +67,11 @@ def run(ctx):
     # a selection option must not disturb the order: the shards kept by the per-metadata limit come in written order
     configs += [{"iface": i, "shuffle": 0, "fp": 2, "repeat": False, "limit": lim}
                 for i in ("numpy", "concurrent", "tfdata") for lim in (1, 2)]
+    # "the same sequence on every pass" also for the passes of ONE repeating stream: three passes in a row must be
+    # the one-pass sequence three times (parallelism below, equal to and above the number of shards)
+    configs += [{"iface": i, "shuffle": 0, "fp": fp, "repeat": True}
+                for i in ("numpy", "concurrent", "async", "rust", "tfdata") for fp in (1, 2, "many", "many+2")
+                if not (i == "numpy" and fp != 1)]
     R.run_grid(ctx, "C03", "seq", configs)
 
 
